@@ -9,6 +9,7 @@ import (
 	"google.golang.org/genproto/googleapis/rpc/status"
 	"io"
 	"net/http"
+	"strings"
 
 	"connectrpc.com/connect"
 	"google.golang.org/genproto/googleapis/api/annotations"
@@ -133,7 +134,10 @@ type fakeMsgDesc struct {
 	fields *fakeFields
 }
 
-func (d *fakeMsgDesc) FullName() protoreflect.FullName       { return protoreflect.FullName(d.name) }
+func (d *fakeMsgDesc) FullName() protoreflect.FullName { return protoreflect.FullName(d.name) }
+func (d *fakeMsgDesc) Name() protoreflect.Name {
+	return protoreflect.Name(d.name[strings.LastIndexByte(d.name, '.')+1:])
+}
 func (d *fakeMsgDesc) Fields() protoreflect.FieldDescriptors { return d.fields }
 
 func newFakeMsgDesc(name string, fields ...*fakeField) *fakeMsgDesc {
@@ -248,14 +252,46 @@ type fakeList struct {
 }
 
 func (l *fakeList) Len() int { return len(l.m.flist[l.i]) }
+
+// NewElement / Append of message-typed lists: elements are kept as placeholders (their content is reflection
+// territory; what matters here is that building and appending an element works like on real lists).
+func (l *fakeList) NewElement() protoreflect.Value {
+	fd := l.m.desc.fields.list[l.i]
+	if fd.msg == nil {
+		return protoreflect.ValueOfString("")
+	}
+	return protoreflect.ValueOfMessage(&fakeMsg{desc: fd.msg})
+}
 func (l *fakeList) Get(k int) protoreflect.Value {
 	return protoreflect.ValueOfString(l.m.flist[l.i][k])
 }
 func (l *fakeList) Append(v protoreflect.Value) {
-	l.m.flist[l.i] = append(l.m.flist[l.i], v.String())
+	if l.m.desc.fields.list[l.i].msg != nil {
+		_ = v.Message() // (panics, like the real list, when the value is not a message)
+		l.m.flist[l.i] = append(l.m.flist[l.i], "<message>")
+	} else {
+		l.m.flist[l.i] = append(l.m.flist[l.i], v.String())
+	}
 	l.m.fset[l.i] = true
 }
 func (l *fakeList) IsValid() bool { return true }
+
+// NewField: a new, empty value for a composite field (a list for repeated fields, a message otherwise), not yet
+// stored in the message - as protoreflect.Message.NewField specifies.
+func (m *fakeMsg) NewField(fd protoreflect.FieldDescriptor) protoreflect.Value {
+	i := m.fieldIndex(fd)
+	if i < 0 {
+		panic("fakeMsg.NewField: unknown field")
+	}
+	ff := m.desc.fields.list[i]
+	if fd.IsList() {
+		return protoreflect.ValueOfList(&fakeList{m: &fakeMsg{desc: m.desc}, i: i})
+	}
+	if ff.msg != nil {
+		return protoreflect.ValueOfMessage(&fakeMsg{desc: ff.msg})
+	}
+	return protoreflect.ValueOfString("")
+}
 
 // Mutable: only repeated fields (the list that Append extends); like the real implementations it panics for
 // fields that have no mutable composite value.
